@@ -14,7 +14,8 @@ From Anthem Require Import Base.ISet Syntax.Fol Syntax.Asp Sem.Domain Sem.Sat Se
   Model.Problem Model.Outline Model.Strong Model.External Model.Tightness Model.PrivRec Model.TauStar
   Model.Completion Model.StrategyCls Model.ExternalFull
   Proofs.SemBase Proofs.DecomposeOk Proofs.StrongOk Proofs.ExternalOk Proofs.AssemblyOk Proofs.RenameOk
-  Proofs.C02Ok Proofs.FagesBridge Proofs.PlaceholderOk Proofs.C02Full Proofs.TightnessOk Proofs.PrivateUnique.
+  Proofs.C02Ok Proofs.FagesBridge Proofs.PlaceholderOk Proofs.C02Full Proofs.TightnessOk Proofs.PrivateUnique
+  Proofs.CompletionOk Proofs.HeadPred Proofs.HeadPredPipeline Proofs.C02Priv.
 Open Scope string_scope.
 Open Scope list_scope.
 
@@ -160,6 +161,57 @@ Theorem C02_external_model_determined_by_public_part :
     forall p d, T1 p d <-> T2 p d.
 Proof. exact stable_private_determined. Qed.
 Print Assumptions C02_external_model_determined_by_public_part.
+
+(* ---------------- hypothesis 1 of docs/C02full.md: what the Assumption formulas are ---------------- *)
+(* role stability (Proofs/HeadPred.v, Properties/C19ext.v): with simplification on, the formulas
+   control_translate labels Assumption are the simplified private definitions of the unsimplified
+   theory - no private definition is lost to the conjectures, no constraint gained *)
+Theorem C02_assumptions_simplified :
+  forall (fuel : nat) (public : list pred) (th : theory),
+    (forall f, In f th -> classified f) ->
+    assumptions_of (control_translate public (map (simp_classic_total fuel) th))
+    = map (simp_classic_total fuel) (assumptions_of (control_translate public th)).
+Proof. exact assumptions_simplified. Qed.
+Print Assumptions C02_assumptions_simplified.
+
+(* ... which are exactly the completed definitions of the non-input, non-public predicates *)
+Theorem C02_assumptions_are_private_definitions :
+  forall (G : theory) (ins : list pred) (D : theory) (public : list pred),
+    completion G ins = Some D -> (forall f, In f G -> rule_like f) ->
+    exists defs cs, components G = Some (defs, cs) /\ has_head_mismatches (all_definitions G defs) = false /\
+      assumptions_of (control_translate public D)
+      = map complete_definition (filter (private_entry public) (filter (non_input ins) (all_definitions G defs))).
+Proof. exact assumptions_completion. Qed.
+Print Assumptions C02_assumptions_are_private_definitions.
+
+(* ... and hold in M iff every private predicate is supported (the premise of layer (d)) *)
+Theorem C02_private_definitions_supported :
+  forall (FI : fint) (P : program) (G D : theory) (ins public priv : list pred) (M : pint),
+    represents FI G P -> completion G ins = Some D -> (forall f, In f G -> rule_like f) ->
+    ~ private_choice P priv ->
+    (forall p, In p priv <-> In p (program_preds P) /\ ~ In p public) ->
+    incl ins public ->
+    (tvalid FI M (assumptions_of (control_translate public D)) <-> priv_supported M P priv).
+Proof. exact private_definitions_supported. Qed.
+Print Assumptions C02_private_definitions_supported.
+
+(* for an accepted program-vs-program task (simplification on or off): the two premises
+   `tvalid FI M (assumptions_of lft)`, `tvalid FI M (assumptions_of rgt)` of
+   C02_modulo_private_uniqueness are equivalent to: the private predicates of the specification
+   program are supported in M, those of the program are supported in M read through the renaming *)
+Theorem C02_assumptions_iff_private_supported :
+  forall (fuel : nat) (t : ext_task) (L : program) w pbs lft rgt,
+    et_specification t = inl L ->
+    external_decompose_full fuel t = XOk w pbs ->
+    task_left tau_star_total completion (simp_classic_total fuel) t L = Some lft ->
+    task_right tau_star_total completion (simp_classic_total fuel) t = Some rgt ->
+    forall (FI : fint) (M : pint),
+      (tvalid FI M (assumptions_of lft) <->
+       priv_supported M (ph_program FI (task_placeholders t) L) (task_spec_private t)) /\
+      (tvalid FI M (assumptions_of rgt) <->
+       priv_supported (reindex (task_mapping t) M) (ph_program FI (task_placeholders t) (et_program t)) (task_prog_private t)).
+Proof. exact accepted_assumptions_supported. Qed.
+Print Assumptions C02_assumptions_iff_private_supported.
 
 (* ---------------- non-vacuity: an accepted task, computed entirely in the model ---------------- *)
 Definition av (x : string) : term := TVar x.
